@@ -13,7 +13,14 @@ NUMPY_OPT = ['dtaidistance.dtw', 'dtaidistance.innerdistance', 'dtaidistance.ed'
 
 
 def has(*subs):
-    return lambda rule, text: any(s in text for s in subs)
+    """Scope predicate on the instance text.  A held obligation names its module (`dtw_ndim:distance_matrix_fast -> ..`), a violated one its file
+    (`src/dtaidistance/dtw_ndim.py:distance_matrix_fast:..`): the text is matched in both spellings."""
+    import re
+
+    def pred(rule, text):
+        alt = re.sub(r'(?:[\w./-]*/)?([\w-]+)\.(?:pyx|py|c|h):', r'\1:', text)
+        return any(s in text or s in alt for s in subs)
+    return pred
 
 
 def _kernels(ctx, m):
@@ -114,6 +121,10 @@ def C02(ctx):
             _py_distance_rules(ctx, m, F, ['band', 'rec'])
             with ctx.scoped(lambda r, t: False):
                 _py_distance_rules(ctx, m, F, ['dom'])
+    # "reached through ... the C distance-matrix routines": pair (r, c) is computed on series r and series c with their own lengths, serial and OpenMP
+    with ctx.scoped(has('pair order', 'kernel must be called', 'kernel call')):
+        iterspace.rule_iter_c_serial(ctx, m)
+        iterspace.rule_omp(ctx, m)
     # the only_ub short-cut: whatever domain it returns (see F2), both engines must return the same one
     doms = {F.name: getattr(F, 'only_ub_domain', None) for F in ks}
     pyd = [d for F in ks if F.lang != 'c' for d in [doms[F.name]] if d]
@@ -130,7 +141,8 @@ def C02(ctx):
     fwd.rule_key_tables(ctx, m)
     tables.rule_inner_dist_table(ctx, m)
     tables.rule_none_zero_encoding(ctx, m)
-    with ctx.scoped(has('dtw:distance ', 'dtw:distance_fast', 'dtw_ndim:distance', 'dtw:distance_matrix', 'dtw_ndim:distance_matrix', ':distance:', ':distance_fast:', 'DTWSettings.')):
+    with ctx.scoped(has('dtw:distance ', 'dtw:distance_fast', 'dtw_ndim:distance', 'dtw:distance_matrix', 'dtw_ndim:distance_matrix', ':distance:', ':distance_fast:', 'DTWSettings.',
+                        'dtw.py:distance', 'dtw_ndim.py:distance')):        # (a violation's instance carries the file name, a held one the module name)
         fwd.rule_delegation(ctx, m, ['dtaidistance.dtw', 'dtaidistance.dtw_ndim'])
     tables.rule_pyx_siblings(ctx, m)
     cshape.rule_ndim_stride(ctx, m, NDIM_FUNCS[:4])
@@ -146,6 +158,7 @@ def C02(ctx):
 
 def C03(ctx):
     m = model(ctx.repo)
+    tables.rule_inner_dist_table(ctx, m)      # the Python kernels take point distance / result / inner_val from this table
     from .rules import wps, bounds
     wps.rule_wps_epilogue(ctx, m)
     wps.rule_parts_domains(ctx, m)
@@ -163,11 +176,15 @@ def C03(ctx):
     with ctx.scoped(has('DTWSettings.', 'ub_euclidean')):
         fwd.rule_delegation(ctx, m, ['dtaidistance.dtw', 'dtaidistance.dtw_ndim'])     # the pruning bound is computed with the settings in effect
     tables.rule_adj_stores(ctx, m)
+    # the thresholds reach the C engine as given (C converts them itself): settings dictionary built from each key's own attribute, 0 = off
+    fwd.rule_key_tables(ctx, m)
+    tables.rule_none_zero_encoding(ctx, m)
     ctx.floor('R-PRUNE', 50, '5 rolling kernels + 2 warping_paths modes')
 
 
 def C04(ctx):
     m = model(ctx.repo)
+    tables.rule_inner_dist_table(ctx, m)      # the Python kernels take point distance / result / inner_val from this table
     _wp(ctx, m, True, ['band', 'rec', 'prune', 'psi', 'dom'])
     _wp(ctx, m, False, ['rec', 'dom'])
     misc.rule_return_arity(ctx, m, [('dtaidistance.dtw', 'warping_paths'), ('dtaidistance.dtw', 'warping_paths_fast')])
@@ -237,6 +254,8 @@ def C07(ctx):
     cshape.rule_c_reentrant(ctx, m)
     cshape.rule_c_settings_readonly(ctx, m)      # the settings struct is shared by all threads of a region
     iterspace.rule_mp_order(ctx, m)
+    with ctx.scoped(has('_distance_matrix_idxs')):
+        iterspace.rule_iter_python(ctx, m)      # the pool branches fill the result in the order of this pair plan: row-major, as the serial engines
     with ctx.scoped(has('parallel')):
         sig.rule_pyx_to_c(ctx, m)
         sig.rule_pxd_vs_header(ctx, m)
@@ -308,6 +327,10 @@ def C10(ctx):
         kern.rule_result_cell(ctx, F)
     from .rules import bounds
     bounds.rule_band_laws(ctx)
+    bounds.rule_euclidean(ctx, m)           # "with window 1 on equal-length series it equals the Euclidean distance": shape of that distance in both engines
+    with ctx.scoped(has('pair order', 'kernel must be called', 'kernel call')):
+        iterspace.rule_iter_c_serial(ctx, m)     # mirroring the upper triangle is valid only if entry (r, c) is d(series r, series c)
+        iterspace.rule_omp(ctx, m)
     bounds.rule_point_distance(ctx, m, _kernels(ctx, m))
     tables.rule_matrix_conversion(ctx, m)
     tables.rule_settings_defaults(ctx, m)
@@ -333,6 +356,8 @@ def C11(ctx):
         cshape.rule_shadow(ctx, m)
     from .rules import bounds
     bounds.rule_ndim_siblings(ctx, m)
+    with ctx.scoped(has('ndim')):
+        bounds.rule_euclidean(ctx, m)       # the multivariate Euclidean upper bound (and its use for pruning)
     for F in _kernels(ctx, m):
         if 'ndim' in F.name:
             _py_distance_rules(ctx, m, F, ['band', 'rec'])          # the multivariate kernels follow the univariate recurrence, cell for cell
@@ -359,6 +384,10 @@ def C12(ctx):
         fwd.rule_delegation(ctx, m, ['dtaidistance.dtw_ndim'])       # the n-D alignment used by the Python update step
     from .rules import wps
     wps.rule_best_path_prob_moves(ctx, m)      # the sampled alignment used by DBA with nb_prob_samples
+    wps.rule_best_path_moves(ctx, m)           # "an optimal warping path": the deterministic back-trackers, penalty included
+    with ctx.scoped(has('warping_path')):
+        sig.rule_pyx_to_c(ctx, m)              # the Python update with use_c=True aligns through dtw_cc.warping_path(_ndim): lengths of both series
+        cshape.rule_alloc_pyx(ctx, m)
     with ctx.scoped(has('dba')):
         cshape.rule_backtrack_repr(ctx, m)     # "an optimal warping path": backtracking needs the matrix in the representation it compares against
     ctx.floor('R-PATH', 12, 'C + Python DBA path rules')
@@ -366,11 +395,14 @@ def C12(ctx):
 
 def C13(ctx):
     m = model(ctx.repo)
+    tables.rule_inner_dist_table(ctx, m)      # the Python kernels take point distance / result / inner_val from this table
     pyshape.rule_subseq_align(ctx, m)
     cshape.rule_ndim_stride(ctx, m, NDIM_FUNCS[4:6])      # the C matrix behind use_c=True for multivariate queries
     with ctx.scoped(has('warping_paths')):
         pyshape.rule_contiguity(ctx, m, ['dtaidistance.dtw', 'dtaidistance.dtw_ndim'])     # align(use_c=True) hands query and series to warping_paths_fast
         sig.rule_pyx_to_c(ctx, m)
+    with ctx.scoped(has('verify_np_array', 'c_data_compat')):
+        pyshape.rule_series_container(ctx, m)        # ... through the contiguity repair: C order, not merely contiguous
     with ctx.scoped(has('subsequencealignment')):
         sig.rule_imports(ctx, m, ['dtaidistance.subsequence.subsequencealignment'])
         sig.rule_py_to_pyx(ctx, m, ['dtaidistance.subsequence.subsequencealignment'])
@@ -386,12 +418,14 @@ def C13(ctx):
 
 def C14(ctx):
     m = model(ctx.repo)
+    tables.rule_inner_dist_table(ctx, m)      # the Python kernels take point distance / result / inner_val from this table
     pyshape.rule_subseq_search(ctx, m)
     with ctx.scoped(has('subsequencesearch')):
         fwd.rule_delegation(ctx, m, ['dtaidistance.subsequence.subsequencesearch'])
         sig.rule_imports(ctx, m, ['dtaidistance.subsequence.subsequencesearch'])
     from .rules import bounds
     bounds.rule_lb_keogh(ctx, m)        # exactness under use_lb needs the bound to be a lower bound in both engines
+    cshape.rule_scan_init(ctx, m, only=['lb_keogh', 'lb_keogh_euclidean'])
     for F in _kernels(ctx, m):
         _py_distance_rules(ctx, m, F, ['prune'])      # the running k-th best threshold is passed as max_dist: pruning must be exact
         with ctx.scoped(has('final threshold')):
@@ -402,6 +436,7 @@ def C14(ctx):
 def C15(ctx):
     m = model(ctx.repo)
     pyshape.rule_hierarchical(ctx, m)
+    pyshape.rule_tree_unbounded(ctx, m)
     # merges are decided on the distance matrix of dists_fun: pairs may only be excluded (inf) by the options' own rules
     for F in _kernels(ctx, m):
         kern.rule_length_diff_exit(ctx, F.name, F.file, F.prologue.events, F.amap, F.outer_line)
@@ -410,11 +445,15 @@ def C15(ctx):
             _py_distance_rules(ctx, m, F, ['prune', 'dom'])
     with ctx.scoped(has('pair order', 'kernel must be called', 'kernel call')):
         iterspace.rule_iter_c_serial(ctx, m)
+    from .rules import bounds
+    bounds.rule_euclidean(ctx, m)       # use_pruning among the options: a bound that is not an upper bound turns finite pair distances into inf (no merge)
     ctx.floor('R-PATH', 10, 'merge loop + tree hook')
 
 
 def C16(ctx):
     m = model(ctx.repo)
+    for F in _kernels(ctx, m):
+        _py_distance_rules(ctx, m, F, ['band'])      # the nearest mean is decided by windowed DTW distances: the band of every distance kernel
     pyshape.rule_kmeans(ctx, m)
     misc.rule_identity(ctx, m, ['dtaidistance.clustering.kmeans', 'dtaidistance.clustering.medoids'])
     misc.rule_mapping_fields(ctx, m, ['dtaidistance.clustering.kmeans', 'dtaidistance.clustering.medoids'])
@@ -437,6 +476,7 @@ def C17(ctx):
     F = kern2d.load(m, 'dtaidistance.dp', 'dp', consts={'window': ('var', 'W')}, nonnull={'W'})
     kern.rule_band(ctx, F)
     kern2d.rule_rec_nw(ctx, F)
+    kern2d.rule_end_cell2d(ctx, F)
     kern.rule_length_diff_exit(ctx, F.name, F.file, F.prologue.events, F.amap, F.outer_line)
     pyshape.rule_alignment_tables(ctx, m)
     pyshape.rule_nw_border(ctx, m)
@@ -479,6 +519,7 @@ def C19(ctx):
     mon.rule_squash_zero_offset(ctx, m)
     mon.rule_default_scale(ctx, m)
     mon.rule_squash_derived_sign(ctx, m)
+    mon.rule_squash_sign_epilogue(ctx, m)
     mon.rule_cover_quantile(ctx, m)
 
 
